@@ -382,7 +382,7 @@ Definition on_complete (cfg : config) (i : nat) (t : tdef) (key : str) (b : bsta
   | Some ds =>
       let '(res, cas') :=
         if td_nocache t || negb (cfg_cache cfg) then
-          (mkRes (nocache_output_hash H (map (fun e => snd (fst e)) ds)) [], c_cas c)
+          (mkRes (nocache_output_hash H (map (fun e => (out_def (fst (fst e)), snd (fst e))) ds)) [], c_cas c)
         else match td_outs t with
              | [] => (mkRes key [], c_cas c)
              | _ =>
@@ -390,7 +390,8 @@ Definition on_complete (cfg : config) (i : nat) (t : tdef) (key : str) (b : bsta
                         (map (fun e => (out_def (fst (fst e)), snd (fst e))) ds),
                   fold_left (fun cas e => cas_add (snd (fst e)) (snd e) cas) ds (c_cas c))
              end in
-      let c' := mkCache (results_set key res (c_results c)) cas' (c_taint c) in
+      (* a disabled cache is not written (C02-F2 / C13-F1 repaired): only the runtime entry changes *)
+      let c' := if cfg_cache cfg then mkCache (results_set key res (c_results c)) cas' (c_taint c) else c in
       let b1 := set_cache b c' in
       let x := get_rt b1 i in
       Some (set_rt b1 i (mkRt (rt_key x) (Some (r_outhash res)) true (rt_status x)))
@@ -424,7 +425,8 @@ Definition execute (cfg : config) (s : sources) (i : nat) (t : tdef) (key : str)
   end.
 
 (* Executor.LoadDependencyOutputs (load_outputs=minimal).  Direct dependencies, aliases resolved
-   to their targets; a dependency whose result cannot be read is re-run and the loop RETURNS;
+   to their targets; a dependency whose outputs are already in place (executed or restored earlier
+   in this build) needs nothing; a dependency whose result cannot be read is re-run and the loop RETURNS;
    a dependency whose outputs cannot be loaded (or a no-cache dependency whose outputs are not in
    place yet) is re-run after loading its own dependencies. *)
 Fixpoint load_dep_outputs (fuel : nat) (cfg : config) (s : sources) (ds : list nat) (b : bstate)
@@ -437,6 +439,8 @@ Fixpoint load_dep_outputs (fuel : nat) (cfg : config) (s : sources) (ds : list n
       | d0 :: ds' =>
           match resolve s d0 with
           | Some (d, dt) =>
+              if rt_loaded (get_rt b d) then load_dep_outputs f cfg s ds' b   (* outputs already in place *)
+              else
               match rt_key (get_rt b d) with
               | None => (false, b)
               | Some dkey =>
